@@ -3,8 +3,8 @@
 RETVAL   the sign class (0 / positive / negative) of each constant a function returns is what it is on the reference tree
          (sa/retvals.json, generated from the pinned tree by tools/gen_retvals.py).  The library's convention is 0 for success
          and -1 / NULL for failure, with a few functions that answer a count or a flag; `return (0)` turned `return (1)` flips what
-         every caller reads.  Compared only when the function still has the same number of return statements with non-constant
-         values in the same places; otherwise nothing is claimed.
+         every caller reads.  Compared as sets per function (which statement carries which constant changes with every
+         restructuring; what the function can answer does not).
 CTOR     a constructor -- a function that returns an object it allocated with malloc -- has stored every member of it that the
          reference constructor stores, on every path to the success return (a member left to chance is read later by code that
          believes it was set: a stale handle, a length, a flag).
@@ -998,18 +998,23 @@ def apply(rep, pid, files, tier):
             want = (ref_ret.get(f.file) or {}).get(key)
             if want is not None:
                 got = ret_classes(f)
-                if len(got) == len(want) and all((a == "v") == (b == "v") for a, b in zip(got, want)):
+                # compared as sets: which return statement carries which constant changes with every restructuring (a clean-up
+                # ladder turned into early returns), what the function can answer does not
+                gs, ws = set(x for x in got if x in ("0", "+", "-")), set(x for x in want if x in ("0", "+", "-"))
+                if gs or ws:
                     n += 1
-                    diff = [(i, b, a) for i, (a, b) in enumerate(zip(got, want)) if a != b]
-                    if diff:
+                    name = {"0": "zero", "+": "a positive constant", "-": "a negative constant"}
+                    extra, missing = sorted(gs - ws), sorted(ws - gs)
+                    if extra or (missing and not any(x == "v" for x in got)):
                         rs = sorted(f.returns(), key=lambda e: (e.line, e.i))
-                        i, b, a = diff[0]
-                        rep.bad("RETVAL", "%s: the constants returned keep their sign class" % f.name, rs[i].where,
-                                "this return answers %s where the reference tree answers %s: callers that test the result (== 0, != 0, < 0, NULL) now read the opposite"
-                                % ({"0": "zero", "+": "a positive constant", "-": "a negative constant"}.get(a, a), {"0": "zero", "+": "a positive constant", "-": "a negative constant"}.get(b, b)),
-                                function=f.name, construct="retval:%d" % i)
+                        at = next((r for r, c in zip(rs, got) if c in extra), rs[0] if rs else None)
+                        rep.bad("RETVAL", "%s: the constants returned keep their sign class" % f.name, (at.where if at is not None else f.loc),
+                                "the function now answers %s, which it never does on the reference tree (there: %s)%s: callers that test the result (== 0, != 0, < 0, NULL) read it differently"
+                                % (", ".join(name[x] for x in extra) or "nothing new", ", ".join(name[x] for x in sorted(ws)) or "no constant",
+                                   ("; it no longer answers " + ", ".join(name[x] for x in missing)) if missing else ""),
+                                function=f.name, construct="retval")
                     else:
-                        rep.ok("RETVAL", "%s: the constants returned keep their sign class" % f.name, f.loc, " ".join(got))
+                        rep.ok("RETVAL", "%s: the constants returned keep their sign class" % f.name, f.loc, " ".join(sorted(gs)))
             # PARAM
             want = (ref_pm.get(f.file) or {}).get(key)
             if want is not None and [p["name"] for p in f.params] == want["all"]:
